@@ -80,6 +80,12 @@ class JaggedArray:
                 flattenedArray.append(arr)
             elif arr is None:
                 nones.append(i)
+            else:
+                raise TypeError(
+                    "Cannot store {} of type {} in the jagged array for {}.".format(
+                        arr, type(arr), paramName
+                    )
+                )
 
         self.flattenedArray = np.array(flattenedArray)
         self.offsets = np.array(offsets)
